@@ -307,6 +307,39 @@ Fixpoint simpleb (es : list (N * N * elab)) : bool :=
 (** executable form of [LGraph.wf] *)
 Definition wfb (g : graph) : bool := gwfb g && simpleb (gedges g).
 
+(** ---------- the call interface: Strategy.from_string and the option defaults of
+    find_subgraph_mappings (strategy.py, subgraph_matcher.py:331-375).  Strings are byte
+    lists (ASCII domain; [str.lower] is modelled on A-Z only). ---------- *)
+Definition lower_byte (b : N) : N := if (65 <=? b)%N && (b <=? 90)%N then (b + 32)%N else b.
+Definition s_all : list N := [97; 108; 108]%N.                      (* "all" *)
+Definition s_comp : list N := [99; 111; 109; 112]%N.                (* "comp" *)
+Definition s_bt : list N := [98; 116]%N.                            (* "bt" *)
+Definition s_partial : list N := [112; 97; 114; 116; 105; 97; 108]%N.  (* "partial" *)
+(** Strategy.from_string on a string: code 0 all, 1 comp, 2 bt, 3 partial; None = ValueError *)
+Definition from_string (s : list N) : option N :=
+  let l := map lower_byte s in
+  if leqb l s_all then Some 0%N else if leqb l s_comp then Some 1%N
+  else if leqb l s_bt then Some 2%N else if leqb l s_partial then Some 3%N else None.
+
+Definition DEFAULT_THRESHOLD : N := 5000%N.
+(** the [strategy] argument: omitted, a string, or an enum member (by code) *)
+Inductive sarg := SDefault | SStr (s : list N) | SMember (code : N).
+Inductive outcome := ValueError | NotImplemented | Result (r : list mapping).
+Definition dflt {X} (d : X) (o : option X) : X := match o with Some x => x | None => d end.
+
+Section Api.
+Variable enum : list N -> list N -> list mapping.
+(** find_subgraph_mappings as it is called: every option may be omitted (None);
+    [max_results = Some 0] behaves as None ("if max_results and ..."), [threshold = Some 0] is a real threshold *)
+Definition find_api (s : sarg) (maxr : option N) (strict : option bool) (thr : option N) (pref : option bool)
+           (H P : graph) : outcome :=
+  match (match s with SDefault => Some 1%N | SStr b => from_string b | SMember c => Some c end) with
+  | None => ValueError
+  | Some 3%N => NotImplemented
+  | Some code => Result (find enum (Cfg code (dflt 0%N maxr) (dflt DEFAULT_THRESHOLD thr) (dflt true strict) (dflt false pref)) H P)
+  end.
+End Api.
+
 (** ---------- observables ---------- *)
 Definition tmapping (m : mapping) : tok := tset (tpair tN tN) m.
 Definition tcomps (cs : list (list N)) : tok := tset (tset tN) cs.
@@ -323,3 +356,14 @@ Definition run_list (H P : graph) (t : table) (cfgs : list cfg) : tok :=
   L [ tbool (wfb H && wfb P); tbool (table_ok2 H P t); tcomps (comps H); tcomps (comps P);
       tlist (fun c => L [ tbool (quick_pre_filter H P (c_thr c));
                           tlist tmapping (find (lookup_or t H P) c H P) ]) cfgs ].
+
+(** the call interface (order-insensitive): one entry per call *)
+Definition tcall (H P : graph) (c : sarg * option N * option bool * option N * option bool) : tok :=
+  let '(s, maxr, strict, thr, pref) := c in
+  match find_api (monos_on H P) s maxr strict thr pref H P with
+  | ValueError => tN 1
+  | NotImplemented => tN 2
+  | Result r => L [tset tmapping r]
+  end.
+Definition run_api (H P : graph) (calls : list (sarg * option N * option bool * option N * option bool)) : tok :=
+  L [ tbool (wfb H && wfb P); tlist (tcall H P) calls ].
